@@ -74,6 +74,14 @@ theorem takeAxis_shape (t : Tensor K) (A R : List ℕ) (n j : ℕ) (hs : t.shape
   rw [hs]
   simp [List.eraseIdx_append_of_length_le]
 
+/-- The data array of `takeAxis` has exactly the size of its shape. -/
+theorem takeAxis_data_size (t : Tensor K) (A R : List ℕ) (n j : ℕ) (hs : t.shape = A ++ n :: R) :
+    (t.takeAxis A.length j).data.size = prod A * prod R := by
+  unfold takeAxis reindexAxis build3 split3
+  simp only [Array.size_ofFn]
+  rw [hs]
+  simp
+
 /-- Multi-index read-back of `takeAxis`. -/
 theorem takeAxis_getIdx (t : Tensor K) (A R : List ℕ) (n j : ℕ) (hs : t.shape = A ++ n :: R)
     (ia ir : List ℕ) (ha : InRange ia A) (hr : InRange ir R) :
